@@ -73,6 +73,9 @@ Verdict(e) ==
     [] op = "sort" -> SortOK([i \in 1..Len(e.xs) |-> WArg(e.xs[i])], e.r)
     [] op = "hash" -> HashOK(hist.hash, WArg(e.a), e.r)
     [] op = "hashset" -> HashSetOK([i \in 1..Len(e.xs) |-> WArg(e.xs[i])], e.r)
+    [] op = "parse" -> ParseOK(IF "text" \in DOMAIN e THEN e.text ELSE e.bytes,
+                               IF "radix" \in DOMAIN e THEN e.radix ELSE 10,
+                               IF "utf8" \in DOMAIN e THEN e.utf8 ELSE TRUE, e.r)
     [] OTHER -> Bad("unknown-op")
 
 Step ==
@@ -87,6 +90,8 @@ Step ==
           /\ UNCHANGED <<regs, bad>>
      ELSE IF e.op = "reset"
      THEN hist' = EmptyHist /\ UNCHANGED <<cfg, regs, bad>>
+     ELSE IF e.op = "note"
+     THEN UNCHANGED <<cfg, regs, hist, bad>>
      ELSE LET v == Verdict(e) IN
           /\ bad' = IF v = OK THEN bad ELSE Append(bad, <<l, v>>)
           /\ hist' = IF e.op = "hash" THEN [hist EXCEPT !.hash = HashRemember(hist.hash, WArg(e.a), e.r)] ELSE hist
